@@ -42,6 +42,26 @@ partial def parseSX : List String → Option (SX × List String)
   | ")" :: _ => none
   | a :: rest => some (.atom a, rest)
 
+/-! The double operations are PARAMETERS of the specification and of the VM model (`Cond.FloatOps`); the correspondence runs
+    instantiate them with Lean's `Float` (IEEE binary64, the C compiler's `double`), on the 64-bit patterns. -/
+def dblBits (f : Float) : Int := C.wrap (f.toBits.toNat : Int)
+def bitsDbl (v : Int) : Float := Float.ofBits (UInt64.ofNat (v % 18446744073709551616).toNat)
+def dblEpsilon : Float := 2.220446049250313e-16
+
+def ieee : FloatOps :=
+  { ofInt := fun i => dblBits (Float.ofInt i)
+    add := fun a b => dblBits (bitsDbl a + bitsDbl b)
+    sub := fun a b => dblBits (bitsDbl a - bitsDbl b)
+    mul := fun a b => dblBits (bitsDbl a * bitsDbl b)
+    div := fun a b => dblBits (bitsDbl a / bitsDbl b)
+    neg := fun a => dblBits (-(bitsDbl a))
+    lt := fun a b => bitsDbl a < bitsDbl b
+    le := fun a b => bitsDbl a ≤ bitsDbl b
+    gt := fun a b => bitsDbl a > bitsDbl b
+    ge := fun a b => bitsDbl a ≥ bitsDbl b
+    nearZero := fun x => Float.abs (bitsDbl x) < dblEpsilon
+    farZero := fun x => Float.abs (bitsDbl x) ≥ dblEpsilon }
+
 def parseFloat (s : String) : Option Float :=
   let (neg, body) := if s.startsWith "-" then (true, (s.drop 1).toString) else (false, s)
   match body.splitOn "." with
@@ -114,7 +134,7 @@ partial def resolveSets (names rnames : List String) : SX → Option SX
 mutual
 partial def parseExpr : SX → Option Expr
   | .list [.atom "int", .atom v] => v.toInt?.map .int
-  | .list [.atom "flt", .atom v] => (parseFloat v).map .flt
+  | .list [.atom "flt", .atom v] => (parseFloat v).map fun f => .flt (dblBits f)
   | .list [.atom "str", .atom h] => (Driver.unhex h).map .str
   | .list [.atom "filesize"] => some .filesize
   | .list [.atom "ext", .atom n] => some (.ext n)
@@ -212,7 +232,7 @@ def parseExt (spec : String) : Option (String × Val) :=
   match spec.splitOn ":" with
   | ["i", n, v] => v.toInt?.map fun x => (n, .int x)
   | ["b", n, v] => v.toInt?.map fun x => (n, .bool (x != 0))
-  | ["f", n, v] => (parseFloat v).map fun x => (n, .flt x)
+  | ["f", n, v] => (parseFloat v).map fun x => (n, .flt (dblBits x))
   | ["s", n, v] => (Driver.unhex v).map fun x => (n, .str x)
   | _ => none
 
@@ -261,9 +281,9 @@ def handle (line : String) : String :=
     let blocks := match c.sizes with
       | some sz => mkBlocks c.buf sz
       | none => [(0, c.buf)]
-    let vs := evalRulesD blocks c.buf.length c.ext c.disabled (c.rules.map (·.2)) []
+    let vs := evalRulesD blocks c.buf.length c.ext c.disabled ieee (c.rules.map (·.2)) []
     let shown := (c.rules.zip vs).map fun (r, v) => s!"default:{r.1}={Driver.bit v}"
-    let ms := YaraModel.CondCompile.modelRulesD blocks c.buf.length c.ext c.disabled (c.rules.map (·.2)) []
+    let ms := YaraModel.CondCompile.modelRulesD blocks c.buf.length c.ext c.disabled ieee (c.rules.map (·.2)) []
     let mshown := (c.rules.zip ms).map fun (r, v) =>
       let t := match v with
         | some b => String.singleton (Driver.bit b)
